@@ -361,7 +361,9 @@ func (g *tgen) val(t reflect.Type, depth int) reflect.Value {
 			f.Set(g.val(f.Type(), depth-1))
 		}
 	case reflect.Func:
-		if !r.Chance(10) {
+		// never nil: calling the wrapper of a nil func panics the host (finding C13-F26, probe nil_func_call); a nil
+		// func nested in a map is even reached by JSON.stringify/String through the toJSON/toString lookup
+		{
 			ft := t
 			v.Set(reflect.MakeFunc(t, func(args []reflect.Value) []reflect.Value {
 				out := make([]reflect.Value, ft.NumOut())
@@ -397,6 +399,9 @@ func deq(a, b reflect.Value, depth int) bool {
 	case reflect.Uint, reflect.Uint8, reflect.Uint16, reflect.Uint32, reflect.Uint64, reflect.Uintptr:
 		return a.Uint() == b.Uint()
 	case reflect.Float32, reflect.Float64:
+		if a.Float() != a.Float() && b.Float() != b.Float() {
+			return true // ECMAScript has one NaN: payloads are not preserved (not a defect)
+		}
 		return math.Float64bits(a.Float()) == math.Float64bits(b.Float())
 	case reflect.String:
 		return a.String() == b.String()
@@ -598,6 +603,9 @@ func runRT(c Case) vh.Record {
 		`typeof w === 'function' ? w() : 0`, `typeof w === 'function' ? w(1, 2, 3, 4) : 0`, `({...Object(w)}), 1`,
 	} {
 		s := src
+		if gv.IsValid() && gv.Kind() == reflect.Func && gv.IsNil() && strings.Contains(s, "'function'") {
+			continue // calling the wrapper of a nil func panics the host: finding C13-F26 (probe nil_func_call)
+		}
 		add("script "+s, func() bool { _, _ = vm.RunString(s); return true })
 	}
 	return vh.Record{Case: vh.MustJSON(c), Coq: coqBits(bits), Obs: fmt.Sprintf("type=%v bits=%v %s", t, bits, strings.Join(notes, "; ")),
@@ -1358,6 +1366,12 @@ var probes = map[string]func(p *probeEnv) bool{
 		p.vm.RunString(`a[5] = 1`)
 		return true
 	},
+	"nil_func_call": func(p *probeEnv) bool {
+		var f func(int) int
+		p.vm.Set("f", f)
+		p.vm.RunString(`f(1)`)
+		return true
+	},
 	"ptr_to_func_export": func(p *probeEnv) bool {
 		f := func() int { return 1 }
 		x := p.vm.ToValue(&f).Export()
@@ -1438,7 +1452,13 @@ func main() {
 	defer w.Close()
 	switch m.Cmd {
 	case "gen":
-		r := vh.NewRng(m.Seed)
+		// vh.NewRng(seed) and vh.NewRng(seed+1) give the same splitmix64 stream shifted by one draw (the driver
+		// starts the generator processes with consecutive seeds): scramble the seed so that the streams are unrelated
+		sd := m.Seed
+		sd = (sd ^ (sd >> 30)) * 0xBF58476D1CE4E5B9
+		sd = (sd ^ (sd >> 27)) * 0x94D049BB133111EB
+		sd ^= sd >> 31
+		r := vh.NewRng(sd)
 		for i := 0; i < m.N; i++ {
 			var c Case
 			switch r.Pick(45, 10, 35, 10) {
